@@ -38,6 +38,16 @@ def bits(t, inputs):
             return src[:w]
         # widening: only unsigned sources are handled (zero extension)
         return src + [0] * (w - len(src))
+    if k == 'elem' and t[2][0] == 'call' and len(t[2][2]) == 1:
+        # byte j of x.to_be_bytes() / x.to_le_bytes()
+        nm = t[2][1].rsplit('::', 1)[-1]
+        j = const_int(t[1]) if isinstance(t[1], tuple) else (t[1] if isinstance(t[1], int) and not isinstance(t[1], bool) else None)
+        src = bits(t[2][2][0], inputs)
+        if nm in ('to_be_bytes', 'to_le_bytes') and '::num::' in t[2][1] and src is not None and j is not None and len(src) % 8 == 0 \
+                and 0 <= j < len(src) // 8:
+            lo = 8 * (len(src) // 8 - 1 - j) if nm == 'to_be_bytes' else 8 * j
+            return src[lo:lo + 8]
+        return None
     if k == 'bin':
         op = t[1]
         a = bits(t[2], inputs)
